@@ -3,7 +3,9 @@
 (* Trace validation of the PARSER (C06, C19): every input of a space is    *)
 (* handed to the real Expr::parse_tree and the outcome -- the concrete     *)
 (* expression tree and the named-group map, or the error kind and byte     *)
-(* position -- must be exactly what Parse.tla computes for the same        *)
+(* position, plus the set of referenced groups (ExprTree::backrefs, which  *)
+(* decides what the analysis calls hard) -- must be exactly what Parse.tla *)
+(* computes for the same                                                   *)
 (* character sequence.  Panics are outcome values (never expected).        *)
 (***************************************************************************)
 EXTENDS Parse, TLC, Json, IOUtils
@@ -12,10 +14,11 @@ Emit(tag, r) == PrintT("@@" \o tag \o " " \o ToJson(r))
 
 \* final name -> index map as a set of pairs (later insertions override earlier ones)
 NameSet(names) == { <<names[j][1], names[j][2]>> : j \in {q \in 1..Len(names) : \A r \in (q + 1)..Len(names) : names[r][1] # names[q][1]} }
-Observed(c) == IF c.st = "ok" THEN [st |-> "ok", tree |-> c.tree, names |-> {<<c.names[j][1], c.names[j][2]>> : j \in 1..Len(c.names)}]
+Observed(c) == IF c.st = "ok" THEN [st |-> "ok", tree |-> c.tree, names |-> {<<c.names[j][1], c.names[j][2]>> : j \in 1..Len(c.names)},
+                                       brefs |-> {c.brefs[j] : j \in 1..Len(c.brefs)}]
                ELSE [st |-> c.st, kind |-> c.kind, pos |-> c.pos]
 Expected(chars) == LET p == Parse(chars) IN
-                   IF p.ok THEN [st |-> "ok", tree |-> p.e, names |-> NameSet(p.names)]
+                   IF p.ok THEN [st |-> "ok", tree |-> p.e, names |-> NameSet(p.names), brefs |-> p.brefs]
                    ELSE [st |-> "err", kind |-> p.kind, pos |-> p.pos]
 
 VARIABLES l, nok, nrej, nokp, nerrp
